@@ -42,6 +42,129 @@ fn wait(result: CommandSendResult, deadline: Instant) -> i64 {
 
 pub struct HistOutcome { pub rounds: usize, pub calls: usize, pub stall: Option<String> }
 
+struct Unpark(std::thread::Thread, std::sync::atomic::AtomicUsize);
+impl Wake for Unpark {
+    fn wake(self: Arc<Self>) { self.1.fetch_add(1, Ordering::SeqCst); self.0.unpark(); }
+    fn wake_by_ref(self: &Arc<Self>) { self.1.fetch_add(1, Ordering::SeqCst); self.0.unpark(); }
+}
+
+/// Free-running "hand-over" rounds (C12, C18): while the worker is busy with a backlog, the acknowledgement of one more put is
+/// polled once by a task that then gives up, and after that awaited by another task that really sleeps (thread park) until
+/// its waker is called. The second task registered its waker with the most recent poll before completion, so completion must
+/// wake it; a sleeper that only comes back through its own time-out although the acknowledgement is complete was not woken.
+pub fn run_handover(seed: u64, rounds: usize, backlog: usize, timeout: Duration, out: &mut dyn Write) -> HistOutcome {
+    let mut calls = 0usize;
+    for round in 0..rounds {
+        let mut rng = StdRng::seed_from_u64(seed.wrapping_add(round as u64));
+        let cache = Arc::new(CacheD::<u64, u64>::new(
+            ConfigBuilder::new(64, 64, 100_000_000).shards(2).command_buffer_size(backlog + 16).access_pool_size(1).access_buffer_size(8).build()));
+        let deadline = Instant::now() + timeout;
+        let mut pending = Vec::new();
+        for index in 0..backlog { pending.push(cache.put_with_weight(index as u64 + 10, 1, 1 + (index % 7) as i64)); }
+        let ack = match cache.put_with_weight(1, 1, rng.gen_range(1..5)) { Ok(ack) => ack, Err(_) => continue };
+        // the task that gives up: one poll with its own waker
+        let first = {
+            let ack = ack.clone();
+            std::thread::spawn(move || {
+                let waker = Waker::from(Arc::new(Noop));
+                let mut context = Context::from_waker(&waker);
+                let mut handle = ack.handle();
+                matches!(Pin::new(&mut handle).poll(&mut context), Poll::Pending)
+            }).join().unwrap_or(false)
+        };
+        // the task that takes over: sleeps until woken
+        let sleeper = Arc::new(Unpark(std::thread::current(), std::sync::atomic::AtomicUsize::new(0)));
+        let waker = Waker::from(sleeper.clone());
+        let mut context = Context::from_waker(&waker);
+        let nap = Duration::from_millis(2500);
+        let mut rescued = false;
+        let mut saw_pending = false;
+        let status = loop {
+            let mut handle = ack.handle();
+            match Pin::new(&mut handle).poll(&mut context) {
+                Poll::Ready(status) => break verif::status_code(&status),
+                Poll::Pending => {
+                    saw_pending = true;
+                    let woken_before = sleeper.1.load(Ordering::SeqCst);
+                    let slept = Instant::now();
+                    while sleeper.1.load(Ordering::SeqCst) == woken_before && slept.elapsed() < nap { std::thread::park_timeout(nap.saturating_sub(slept.elapsed())); }
+                    if sleeper.1.load(Ordering::SeqCst) == woken_before {
+                        // nobody called the waker during the whole nap: was the acknowledgement complete meanwhile?
+                        if ack.handle().verif_peek().0 { rescued = true; }
+                    }
+                    if Instant::now() > deadline { break -3; }
+                }
+            }
+        };
+        for result in pending { let _ = wait(result, deadline); }
+        calls += 1;
+        serde_json::to_writer(&mut *out, &serde_json::json!({"t": "h", "run": round + 1, "w": 0, "n": 1, "k": 1, "op": "handover", "v": if first && saw_pending { 1 } else { 0 }, "st": status,
+                                                             "got": if rescued { -1 } else { 1 }})).unwrap();
+        out.write_all(b"\n").unwrap();
+        cache.shutdown();
+        if status == -3 {
+            return HistOutcome { rounds: round + 1, calls, stall: Some(format!("round {} (seed {}): the acknowledgement never completed", round, seed.wrapping_add(round as u64))) };
+        }
+        if rescued { break; }   // (one lost wake-up is enough; every further one costs a whole nap)
+    }
+    HistOutcome { rounds, calls, stall: None }
+}
+
+struct Counting(std::sync::atomic::AtomicUsize);
+impl Wake for Counting {
+    fn wake(self: Arc<Self>) { self.0.fetch_add(1, Ordering::SeqCst); }
+    fn wake_by_ref(self: &Arc<Self>) { self.0.fetch_add(1, Ordering::SeqCst); }
+}
+
+/// Free-running "contended completion" rounds (C12): several threads poll ONE acknowledgement without pause, all with the same
+/// waker, while the worker (busy with a backlog) completes it. If any poll returned Pending, that waker was registered when
+/// the completion ran, so it must have been called at least once: whatever the pollers were doing to the waker slot then.
+pub fn run_contend(seed: u64, rounds: usize, backlog: usize, pollers: usize, timeout: Duration, out: &mut dyn Write) -> HistOutcome {
+    let mut calls = 0usize;
+    for round in 0..rounds {
+        let mut rng = StdRng::seed_from_u64(seed.wrapping_add(round as u64));
+        let cache = Arc::new(CacheD::<u64, u64>::new(
+            ConfigBuilder::new(64, 64, 100_000_000).shards(2).command_buffer_size(backlog + 16).access_pool_size(1).access_buffer_size(8).build()));
+        let deadline = Instant::now() + timeout;
+        let mut pending = Vec::new();
+        for index in 0..rng.gen_range(backlog / 2..=backlog) { pending.push(cache.put_with_weight(index as u64 + 10, 1, 1)); }
+        let ack = match cache.put_with_weight(1, 1, 1) { Ok(ack) => ack, Err(_) => continue };
+        let counting = Arc::new(Counting(std::sync::atomic::AtomicUsize::new(0)));
+        let mut joins = Vec::new();
+        for _ in 0..pollers {
+            let (ack, counting) = (ack.clone(), counting.clone());
+            joins.push(std::thread::spawn(move || {
+                let waker = Waker::from(counting);
+                let mut context = Context::from_waker(&waker);
+                let mut pendings = 0i64;
+                loop {
+                    let mut handle = ack.handle();
+                    match Pin::new(&mut handle).poll(&mut context) {
+                        Poll::Ready(status) => return (pendings, verif::status_code(&status)),
+                        Poll::Pending => { pendings += 1; if Instant::now() > deadline { return (pendings, -3); } }
+                    }
+                }
+            }));
+        }
+        let results: Vec<(i64, i64)> = joins.into_iter().map(|join| join.join().unwrap_or((0, -3))).collect();
+        let pendings: i64 = results.iter().map(|result| result.0).sum();
+        let status = results.iter().map(|result| result.1).min().unwrap_or(-3);
+        // the completion runs its wake-up right after publishing the flag: give it a moment
+        let waited = Instant::now();
+        while counting.0.load(Ordering::SeqCst) == 0 && waited.elapsed() < Duration::from_millis(300) { std::thread::yield_now(); }
+        for result in pending { let _ = wait(result, deadline); }
+        calls += 1;
+        serde_json::to_writer(&mut *out, &serde_json::json!({"t": "h", "run": round + 1, "w": 0, "n": 1, "k": 1, "op": "contend", "v": pendings.min(1_000_000), "st": status,
+                                                             "got": counting.0.load(Ordering::SeqCst).min(1_000_000) as i64})).unwrap();
+        out.write_all(b"\n").unwrap();
+        cache.shutdown();
+        if status == -3 {
+            return HistOutcome { rounds: round + 1, calls, stall: Some(format!("round {} (seed {}): the acknowledgement never completed", round, seed.wrapping_add(round as u64))) };
+        }
+    }
+    HistOutcome { rounds, calls, stall: None }
+}
+
 /// Free-running "hot key" rounds: one key fills the cache and is read without pause by several threads (so its estimate is
 /// high in every ageing window), while one thread puts keys that were never read and that only fit by evicting it. Every
 /// such put must be refused and the hot key must stay (TinyLFU admission with true estimates: C06, C14), whatever the
